@@ -1,6 +1,18 @@
-(* C03 for the UBJSON parser model: no panic on arbitrary bytes / chunkings /
-   visitor failures; totality (no OutOfFuel) except for typed containers of
-   zero-sized elements; linear space. *)
+(* C03 for the UBJSON parser model (Ubjson/Parse.v).
+
+   Main results (all closed under the global context):
+     C03_ubj_no_panic, C03_ubj_parse_no_panic   no Panic on any bytes / chunking / visitor failure (unconditional)
+     C03_ubj_zero_typed_refuted                 "[$T#L\x7f\xff.." runs out of fuel (the recorded finding)
+     C03_ubj_chunks_total, C03_ubj_parse_total  Ok (no OutOfFuel) when no '$' is immediately followed by Z, T or F
+     C03_ubj_space, C03_ubj_space_run           retained state <= 3 * input length (unconditional, non-failed runs)
+
+   Structure:
+     stage 1  inv1b: a shape invariant excluding every crash branch (post1, ubody0_safe1)
+     stage 3  ext3b: stack chain, value-state balance, no zero-sized element type, marker/buffer discipline;
+              potential phi = 4 * remaining + sum of stack weights + weight of the current state decreases
+              at every execStep (post3, ubody0_step3); ufeed_fuel >= phi + 1
+     space    sp = stack + lstack + vstack + buf (+1 in four states) grows by at most 3 per consumed byte
+              (post2, ubody0_step2) *)
 From SF Require Import Base.Prelude Core.Events Ubjson.Spec Ubjson.Parse.
 From Coq Require Import ZifyBool ZifyNat ZifyN.
 Open Scope Z_scope.
@@ -719,7 +731,7 @@ Definition lenbm (mk : Z) (buf : bytes) : bool :=
   || (mk =? mI) && (zlen buf <? 2) || (mk =? ml) && (zlen buf <? 4) || (mk =? mL) && (zlen buf <? 8).
 
 Definition len_out3 (p : uparser) (b : bytes) (cont : ustate) (p1 : uparser) (rest : bytes) : Prop :=
-  (exists buf m, p1 = uset_marker (uset_buf p buf) m /\ rest = [] /\ lenbm m buf = true /\ m <> 0) \/
+  (exists buf m, p1 = uset_marker (uset_buf p buf) m /\ rest = [] /\ lenbm m buf = true /\ m <> 0 /\ zlen buf <= zlen (up_buf p) + zlen b) \/
   (exists L pre, 0 <= L /\ p1 = ul_push (uset_cur (uset_marker (uset_buf p []) 0) cont) L /\ b = pre ++ rest /\ pre <> []).
 
 Lemma ustep_len_strong : forall p b cont, b <> [] -> lenbm (up_marker p) (up_buf p) = true ->
@@ -772,8 +784,9 @@ Proof.
         + intro E. apply app_eq_nil in E. destruct E as [_ E]. contradiction.
       - rewrite Hc. eexists _, _, _. split; [reflexivity|]. intros _. left. exists (up_buf p ++ b0), (up_marker p0).
         split; [rewrite Hp0buf, Hp0; destruct p; reflexivity|]. split; [reflexivity|].
-        split; [|intro E; rewrite E in Hm0; discriminate Hm0].
-        rewrite Hp0buf in Hlt. destruct Hlb2 as [Hlb2|Hlb2]; [exact Hlb2|lia]. }
+        split; [|split; [intro E; rewrite E in Hm0; discriminate Hm0|]].
+        { rewrite Hp0buf in Hlt. destruct Hlb2 as [Hlb2|Hlb2]; [exact Hlb2|lia]. }
+        rewrite Hpre0, !zlen_app. pose proof (zlen_nonneg _ pre0). lia. }
     unfold lenbm in Hlb.
     destruct (up_marker p0 =? mi) eqn:Emi.
     { destruct b0 as [|x r]; [congruence|]. apply (Hfin _ (pre0 ++ [x]) r).
@@ -813,7 +826,8 @@ Proof.
     { unfold lenbm. unfold mi, mU, mI, ml, mL in *. change (zlen (@nil Z)) with 0. split; lia. }
     destruct (zlen r =? 0) eqn:Er.
     { eexists _, _, _. split; [reflexivity|]. intros _. left. exists [], m.
-      split; [rewrite (uset_buf_nil p Hbuf); reflexivity|]. split; [reflexivity|]. exact Hlm. }
+      split; [rewrite (uset_buf_nil p Hbuf); reflexivity|]. split; [reflexivity|]. split; [apply Hlm|]. split; [apply Hlm|].
+      change (zlen (@nil Z)) with 0. pose proof (zlen_nonneg _ (up_buf p)). pose proof (zlen_nonneg _ (m :: r)). lia. }
     apply (Hgo _ [m] r); [destruct p; reflexivity|reflexivity|intros ->; discriminate Er| |].
     + cbn [up_marker uset_marker]. rewrite Hbuf. apply Hlm.
     + cbn [up_marker uset_marker]. destruct Hlm as [_ Hlm]. apply Z.eqb_neq. exact Hlm.
@@ -1081,7 +1095,7 @@ Proof.
 Qed.
 
 Definition len_out4 (p : uparser) (b : bytes) (cont : ustate) (p1 : uparser) (rest : bytes) : Prop :=
-  (exists buf m, p1 = uset_marker (uset_buf p buf) m /\ rest = [] /\ lenbm m buf = true /\ m <> 0) \/
+  (exists buf m, p1 = uset_marker (uset_buf p buf) m /\ rest = [] /\ lenbm m buf = true /\ m <> 0 /\ zlen buf <= zlen (up_buf p) + zlen b) \/
   (exists L, 0 <= L /\ p1 = ul_push (uset_cur (uset_marker (uset_buf p []) 0) cont) L /\ suffix_of b rest /\ zlen rest < zlen b).
 
 Lemma ustep_len_s3 : forall p b cont, b <> [] -> lenbm (up_marker p) (up_buf p) = true ->
@@ -1162,10 +1176,10 @@ Ltac crunch3 :=
         [ specialize (Ho eq_refl); destruct Ho as [-> [->|(st & Hst & -> & ->)]] | clear Ho ]
     | |- context[ustep_len ?p ?b ?c] =>
         let E := fresh "E" in let Ho := fresh "Ho" in let Hu := fresh "Hu" in let err := fresh "err" in
-        let HL := fresh "HL" in let Hs := fresh "Hsfx" in let Hz := fresh "Hzl" in let Hlb := fresh "Hlb" in let Hm := fresh "Hm" in
+        let HL := fresh "HL" in let Hs := fresh "Hsfx" in let Hz := fresh "Hzl" in let Hlb := fresh "Hlb" in let Hm := fresh "Hm" in let Hbl := fresh "Hbl" in
         destruct (ustep_len_s3 p b c) as (? & ? & err & E & Ho); [side3|side3|]; rewrite E; clear E;
         destruct (unil err) eqn:Hu;
-        [ specialize (Ho eq_refl); destruct Ho as [(? & ? & -> & -> & Hlb & Hm)|(? & HL & -> & Hs & Hz)]; [unfold lenbm, mi, mU, mI, ml, mL in Hlb|] | clear Ho ]
+        [ specialize (Ho eq_refl); destruct Ho as [(? & ? & -> & -> & Hlb & Hm & Hbl)|(? & HL & -> & Hs & Hz)]; [unfold lenbm, mi, mU, mI, ml, mL in Hlb; cbv [uset_buf uset_cur uset_marker uset_lcur uset_step uset_type uset_err ul_push v_push with_step mku] in Hbl; cbn [up_buf] in Hbl|] | clear Ho ]
     | |- context[ucollect ?p ?b ?c] =>
         let E := fresh "E" in let Hs := fresh "Hsfx" in let Hz := fresh "Hzl" in let Hlt := fresh "Hlt" in
         destruct (ucollect_s3 p b c) as [(? & ? & E & Hs & Hz)|(E & Hlt)]; [side3|side3| |]; rewrite E; clear E;
@@ -1236,9 +1250,6 @@ Ltac pop_leaf H2 E1 E2a E2b E2c E3b E3c :=
       | split; [exact Q1 | rest5 Q2 Q3 ] ]
   end.
 
-
-Ltac vc_nonfail E2c Htnn :=
-  apply (vdepth_pos _ _ : forall vc vs, _); fail.
 
 Ltac push_vc_leaf H4 E1 E2a E2b E2c E3b E3c Hnf :=
   let Q1 := fresh "Q" in let Q2 := fresh "Q" in let Q3 := fresh "Q" in
@@ -1524,3 +1535,347 @@ Proof.
 Qed.
 Print Assumptions C03_ubj_chunks_total.
 Print Assumptions C03_ubj_parse_total.
+
+(* ================================================================== *)
+(* Space: the retained state is linear in the bytes consumed            *)
+(* ================================================================== *)
+Definition bmb (p : uparser) : bool := bm (up_cur p) (up_marker p) (up_buf p) (up_lcur p).
+Definition wsp (st : ustate) : Z := if st_in st [(8,13);(8,16);(12,18);(12,16)] then 1 else 0.
+Definition sp (p : uparser) : Z :=
+  zlen (up_stack p) + wsp (up_cur p) + zlen (up_lstack p) + zlen (up_buf p) + zlen (up_vstack p).
+
+Definition post2 (p : uparser) (b : bytes) (r : ures) : Prop :=
+  match r with
+  | UCrash _ => False
+  | UR p1 _ rest _ err => unil err = true -> bmb p1 = true /\ sp p1 + 3 * zlen rest <= sp p + 3 * zlen b
+  end.
+
+Lemma post2_latch : forall p b r, post2 p b r -> post2 p b (latch r).
+Proof.
+  intros p b [p1 s rest d err|w] H; cbn [latch]; [|exact H].
+  destruct (unil err) eqn:E; [exact H|]. cbn [post2]. intro H1. congruence.
+Qed.
+Lemma post2_nodone : forall p b r, post2 p b r -> post2 p b (value_nodone r).
+Proof. intros p b [p1 s rest d err|w] H; exact H. Qed.
+Lemma post2_mono : forall p p' b r, sp p' <= sp p -> post2 p' b r -> post2 p b r.
+Proof.
+  intros p p' b [p1 s rest d err|w] Hs H; [|exact H]. cbn [post2] in *. intro Hu.
+  destruct (H Hu) as [A B]. split; [exact A|lia].
+Qed.
+
+Lemma wsp_bounds : forall st, 0 <= wsp st <= 1.
+Proof. intro st. unfold wsp. destruct (st_in st _); lia. Qed.
+Lemma vstate_wsp : forall st, st_in st vstates = true -> wsp st = 0.
+Proof.
+  intros [t s] H. apply st_in_In in H. cbn in H.
+  repeat (destruct H as [H|H]; [injection H as <- <-; reflexivity|]). contradiction.
+Qed.
+
+Lemma pop2_a : forall p, up_marker p = 0 -> up_buf p = [] ->
+  bmb (u_pop p) = true /\ sp (u_pop p) <= zlen (up_stack p) + zlen (up_lstack p) + zlen (up_vstack p).
+Proof.
+  intros p Hm Hb. dp p. cbn [up_marker up_buf] in *. subst. unfold u_pop. cbn [up_stack].
+  destruct k as [|c1 r]; unfold bmb, sp; cbn [up_cur up_stack up_lstack up_buf up_vstack up_marker up_lcur uset_cur].
+  - split; [apply bm_clean|]. change (wsp (mku tFail sStart)) with 0. change (zlen (@nil Z)) with 0. lia.
+  - split; [apply bm_clean|]. rewrite zlen_cons. pose proof (wsp_bounds c1). change (zlen (@nil Z)) with 0. lia.
+Qed.
+
+Lemma ulpop_len : forall p, zlen (up_lstack (ul_pop p)) <= zlen (up_lstack p).
+Proof. intro p. unfold ul_pop. destruct (up_lstack p) as [|l r] eqn:E; dp p; cbn [up_lstack uset_lcur] in *; subst; [lia|rewrite zlen_cons; lia]. Qed.
+Lemma vpop_len : forall p, zlen (up_vstack (v_pop p)) <= zlen (up_vstack p).
+Proof. intro p. unfold v_pop. destruct (up_vstack p) as [|l r] eqn:E; cbn [up_vstack]; [unfold zlen; cbn; lia|rewrite zlen_cons; lia]. Qed.
+Lemma vpop_lstack : forall p, up_lstack (v_pop p) = up_lstack p.
+Proof. intro p. unfold v_pop. destruct (up_vstack p); reflexivity. Qed.
+
+Lemma pop2_b : forall p, up_marker p = 0 -> up_buf p = [] ->
+  bmb (u_pop (ul_pop p)) = true /\ sp (u_pop (ul_pop p)) <= zlen (up_stack p) + zlen (up_lstack p) + zlen (up_vstack p).
+Proof.
+  intros p Hm Hb. destruct (pop2_a (ul_pop p)) as [A B]; [rewrite ulpop_marker; exact Hm|rewrite ulpop_buf; exact Hb|].
+  split; [exact A|]. rewrite ulpop_stack, ulpop_vstack in B. pose proof (ulpop_len p). lia.
+Qed.
+
+Lemma pop2_c : forall p, up_marker p = 0 -> up_buf p = [] ->
+  bmb (u_pop (ul_pop (v_pop p))) = true /\
+  sp (u_pop (ul_pop (v_pop p))) <= zlen (up_stack p) + zlen (up_lstack p) + zlen (up_vstack p).
+Proof.
+  intros p Hm Hb. destruct (vpop_fields p) as (V1 & V2 & V3 & V4).
+  destruct (pop2_b (v_pop p)) as [A B]; [rewrite V3; exact Hm|rewrite V4; exact Hb|].
+  split; [exact A|]. rewrite V2, vpop_lstack in B. pose proof (vpop_len p). lia.
+Qed.
+
+Opaque ustep_len ucollect ustep_value uvis wraps be_dec marker_state marker_btype.
+
+Ltac norm2 := cbv [uset_buf uset_cur uset_marker uset_lcur uset_step uset_type uset_err ul_push v_push with_step mku];
+  cbn -[Z.sub zlen sp bmb Z.mul Z.add].
+
+Ltac crunch2 :=
+  repeat first
+  [ progress norm2
+  | match goal with
+    | |- context[uvis ?s ?e] => destruct (uvis s e) as [? ?]
+    | |- context[ustep_value ?p ?s (?x :: ?r)] =>
+        let E := fresh "E" in let Ho := fresh "Ho" in let Hu := fresh "Hu" in
+        let st := fresh "st" in let Hst := fresh "Hst" in let err := fresh "err" in
+        destruct (ustep_value_spec3 p s x r) as (? & ? & ? & ? & err & E & Ho); rewrite E; clear E;
+        destruct (unil err) eqn:Hu;
+        [ specialize (Ho eq_refl); destruct Ho as [-> [->|(st & Hst & -> & ->)]] | clear Ho ]
+    | |- context[ustep_len ?p ?b ?c] =>
+        let E := fresh "E" in let Ho := fresh "Ho" in let Hu := fresh "Hu" in let err := fresh "err" in
+        let HL := fresh "HL" in let Hs := fresh "Hsfx" in let Hz := fresh "Hzl" in let Hlb := fresh "Hlb" in let Hm := fresh "Hm" in let Hbl := fresh "Hbl" in
+        destruct (ustep_len_s3 p b c) as (? & ? & err & E & Ho); [side3|side3|]; rewrite E; clear E;
+        destruct (unil err) eqn:Hu;
+        [ specialize (Ho eq_refl); destruct Ho as [(? & ? & -> & -> & Hlb & Hm & Hbl)|(? & HL & -> & Hs & Hz)]; [unfold lenbm, mi, mU, mI, ml, mL in Hlb; cbv [uset_buf uset_cur uset_marker uset_lcur uset_step uset_type uset_err ul_push v_push with_step mku] in Hbl; cbn [up_buf] in Hbl|] | clear Ho ]
+    | |- context[ucollect ?p ?b ?c] =>
+        let E := fresh "E" in let Hs := fresh "Hsfx" in let Hz := fresh "Hzl" in let Hlt := fresh "Hlt" in
+        destruct (ucollect_s3 p b c) as [(? & ? & E & Hs & Hz)|(E & Hlt)]; [side3|side3| |]; rewrite E; clear E;
+        try (cbv [uset_buf uset_cur uset_marker uset_lcur uset_step uset_type uset_err ul_push v_push with_step mku] in Hlt; cbn [up_buf app] in Hlt)
+    | |- context[match marker_state ?m with _ => _ end] => destruct (marker_state m) eqn:?
+    | |- context[if ?c then _ else _] => destruct c eqn:?
+    end ].
+
+Ltac bm_leaf :=
+  unfold bmb; flds;
+  first [ apply bm_clean
+        | (unfold bm; cbn -[zlen]; unfold lenbm, mi, mU, mI, ml, mL; change (zlen (@nil Z)) with 0; lia) ].
+
+Ltac sp_norm := unfold sp; flds; cbn -[zlen Z.mul Z.add]; rewrite ?zlen_app, ?zlen_cons; change (zlen (@nil Z)) with 0;
+  change (zlen (@nil ustate)) with 0.
+
+Ltac plain2 := split; [ bm_leaf
+  | try (match goal with |- context[up_lstack (ul_pop ?P)] =>
+           let Hul := fresh "Hul" in pose proof (ulpop_len P) as Hul; cbn [up_lstack] in Hul end);
+    sp_norm; lia ].
+
+Ltac pop2_leaf :=
+  let Q1 := fresh "Q" in let Q2 := fresh "Q" in
+  match goal with
+  | |- bmb (u_pop (ul_pop (v_pop ?P))) = true /\ _ => destruct (pop2_c P) as (Q1 & Q2); [ side_mk | side_buf | ]
+  | |- bmb (u_pop (ul_pop ?P)) = true /\ _ => destruct (pop2_b P) as (Q1 & Q2); [ side_mk | side_buf | ]
+  | |- bmb (u_pop ?P) = true /\ _ => destruct (pop2_a P) as (Q1 & Q2); [ side_mk | side_buf | ]
+  end;
+  split; [ exact Q1 | ];
+  match goal with |- sp ?A + _ <= _ => revert Q2; generalize (sp A); intros ? Q2 end;
+  cbn [up_stack up_lstack up_vstack] in Q2; rewrite ?zlen_cons in Q2; sp_norm; lia.
+
+
+Lemma upush_sp : forall p st, u_t (up_cur p) <> tFail -> wsp st = 0 ->
+  sp (u_push p st) = sp p - wsp (up_cur p) + 1.
+Proof.
+  intros p st Hc Hw. dp p. unfold u_push, sp. cbn [up_cur up_stack up_lstack up_buf up_vstack].
+  destruct (u_t c =? tFail) eqn:E; [apply Z.eqb_eq in E; cbn [up_cur] in Hc; contradiction|].
+  rewrite zlen_cons, Hw. lia.
+Qed.
+
+Ltac push2_leaf :=
+  match goal with
+  | |- bmb (u_push ?P ?st) = true /\ _ =>
+      split; [ unfold bmb, u_push; flds; apply bm_clean
+             | rewrite (upush_sp P st); [ sp_norm; lia | (flds; cbn; discriminate)
+               | first [ assumption | (apply vstate_wsp; apply fresh_vstate; assumption) ] ] ]
+  end.
+
+
+Ltac at2_leaf Hrec Hr H2 H4 H5 V3 V4 :=
+  apply post2_nodone;
+  match goal with |- post2 _ _ (_ (u_push ?P ?vc) _ _) =>
+    apply (post2_mono _ (u_push P vc));
+    [ rewrite (upush_sp P vc); [ sp_norm; lia | (flds; cbn; discriminate) | exact V4 ]
+    | apply Hrec;
+      [ reflexivity
+      | apply inv1b_push; [ inv_leaf H2 H4 H5 | reflexivity | exact H4 ]
+      | unfold bmb, u_push; flds; apply bm_clean
+      | rewrite upush_cur; exact V3
+      | first [ (left; discriminate)
+              | (right; apply zero_sized_can_step; rewrite upush_cur;
+                 repeat match goal with H : (_ =? 0) = false |- _ => rewrite H in Hr end; exact Hr) ] ] ]
+  end.
+
+Lemma ubody0_step2 : forall rec p s b, inv1b p = true -> bmb p = true -> ready p b ->
+  (u_t (up_cur p) = tArrayTyped -> forall p' s', inv1b p' = true -> bmb p' = true -> u_t (up_cur p') <> tArrayTyped ->
+      ready p' b -> post2 p' b (rec p' s' b)) ->
+  post2 p b (ubody0 rec p s b).
+Proof.
+  intros rec p s b Hi E4 Hr Hrec.
+  destruct (inv1b_split _ Hi) as (H1 & H2 & H3 & H4 & H5).
+  destruct p as [[t st] stk vc vs lc ls buf mk vt er].
+  unfold bmb in E4.
+  cbn [up_cur up_stack up_vcur up_vstack up_lcur up_marker up_buf] in H1, H2, H3, H4, H5, E4.
+  destruct (vstate_cur _ H4) as (V1 & V2 & V3). pose proof (vstate_wsp _ H4) as V4.
+  apply st_in_In in H1. cbn in H1.
+  repeat (destruct H1 as [H1|H1]; [injection H1 as <- <-|]); try contradiction.
+  all: cbn in H3; unfold bm in E4; cbn -[zlen] in E4; unfold lenbm, mi, mU, mI, ml, mL in E4.
+  all: pose proof (zlen_nonneg _ buf) as Hbnn.
+  all: try (assert (mk = 0) by lia; subst mk).
+  all: try (assert (buf = []) by (apply zlen_nil_iff; lia); subst buf).
+  all: destruct b as [|x r]; [ destruct Hr as [Hr|Hr]; [congruence|]; try (discriminate Hr); cbn in Hr
+                            | pose proof (zlen_cons _ x r) as Hzc; pose proof (zlen_nonneg _ r) as Hznn ].
+  all: unfold ubody0.
+  all: norm2.
+  all: crunch2.
+  all: try contradiction.
+  all: try solve [exfalso; congruence].
+  all: try (intro Hu'; try congruence; try (rewrite Hu' in *; discriminate)).
+  all: clear Hi.
+  all: rewrite ?ulpop_cur, ?ulpop_stack, ?ulpop_vcur, ?ulpop_vstack, ?ulpop_marker, ?ulpop_buf; norm2.
+  all: try solve [ plain2 ].
+  all: try solve [ pop2_leaf ].
+  all: try solve [ push2_leaf ].
+  all: at2_leaf Hrec Hr H2 H4 H5 V3 V4.
+Qed.
+
+Transparent ustep_len ucollect ustep_value uvis wraps be_dec marker_state marker_btype.
+
+
+Lemma ubody_step2 : forall rec p s b, inv1b p = true -> bmb p = true -> ready p b ->
+  (u_t (up_cur p) = tArrayTyped -> forall p' s', inv1b p' = true -> bmb p' = true -> u_t (up_cur p') <> tArrayTyped ->
+      ready p' b -> post2 p' b (rec p' s' b)) ->
+  post2 p b (ubody rec p s b).
+Proof. intros. unfold ubody. apply post2_latch. apply ubody0_step2; assumption. Qed.
+
+Lemma uexec_step2 : forall p s b, inv1b p = true -> bmb p = true -> ready p b -> post2 p b (uexec_step p s b).
+Proof.
+  intros p s b Hi He Hr. unfold uexec_step. rewrite uexec_S. apply ubody_step2; try assumption.
+  intros _ p' s' Hi' He' Ht' Hr'. rewrite uexec_S. apply ubody_step2; try assumption.
+  intro X; contradiction.
+Qed.
+
+Definition sp_fu (p : uparser) (b : bytes) (r : res ures) : Prop :=
+  match r with
+  | Ok (UR p1 _ rest _ err) => unil err = true ->
+      inv1b p1 = true /\ bmb p1 = true /\ sp p1 + 3 * zlen rest <= sp p + 3 * zlen b
+  | _ => True
+  end.
+
+Lemma ufeed_until_space : forall fuel p s b, inv1b p = true -> bmb p = true -> ready p b ->
+  sp_fu p b (ufeed_until fuel p s b).
+Proof.
+  induction fuel as [|f IH]; intros p s b Hi He Hr; cbn [ufeed_until]; [exact I|].
+  pose proof (uexec_step2 p s b Hi He Hr) as H2.
+  pose proof (uexec_step_safe1 p s b Hi Hr) as H1.
+  destruct (uexec_step p s b) as [p1 s1 rest d err|w]; [|contradiction]. cbn [post1 post2] in H1, H2.
+  destruct (d || negb (unil err)) eqn:E1.
+  { cbn [sp_fu]. intro Hu. destruct (H2 Hu) as [A B]. auto. }
+  apply orb_false_iff in E1. destruct E1 as [_ E1]. apply negb_false_iff in E1.
+  destruct (H2 E1) as [A B]. specialize (H1 E1).
+  destruct ((zlen rest =? 0) && negb (can_step_without_input p1)) eqn:E2.
+  { cbn [sp_fu]. intros _. auto. }
+  assert (Hr1 : ready p1 rest).
+  { apply andb_false_iff in E2. destruct E2 as [E2|E2].
+    - left. intros ->. discriminate E2.
+    - right. apply negb_false_iff in E2. exact E2. }
+  pose proof (IH p1 s1 rest H1 A Hr1) as H.
+  destruct (ufeed_until f p1 s1 rest) as [[p2 s2 rest2 d2 err2|w]|e|w|]; cbn [sp_fu] in *; try exact I.
+  intro Hu. destruct (H Hu) as (X & Y & Z). repeat split; try assumption. lia.
+Qed.
+
+Definition sp_f (p : uparser) (b : bytes) (r : res (uparser * sink * Z)) : Prop :=
+  match r with
+  | Ok (p1, _, err) => unil err = true -> inv1b p1 = true /\ bmb p1 = true /\ sp p1 <= sp p + 3 * zlen b
+  | _ => True
+  end.
+
+Lemma ufeed_space : forall fuel p s b, inv1b p = true -> bmb p = true -> sp_f p b (ufeed fuel p s b).
+Proof.
+  induction fuel as [|f IH]; intros p s b Hi He; cbn [ufeed]; [exact I|].
+  destruct (zlen b >? 0) eqn:Eb.
+  2:{ cbn [sp_f]. intros _. pose proof (zlen_nonneg _ b). repeat split; try assumption. lia. }
+  assert (Hr : ready p b). { left. intros ->. discriminate Eb. }
+  pose proof (ufeed_until_space (ufeed_fuel p b) p s b Hi He Hr) as H.
+  destruct (ufeed_until (ufeed_fuel p b) p s b) as [[p1 s1 rest d err|w]|e|w|]; cbn [sp_fu] in H; try exact I.
+  destruct (unil err) eqn:E.
+  - destruct (H eq_refl) as (A & B & C). pose proof (IH p1 s1 rest A B) as H'.
+    destruct (ufeed f p1 s1 rest) as [[[p2 s2] err2]|e|w|]; cbn [sp_f] in *; try exact I.
+    intro Hu. destruct (H' Hu) as (X & Y & Z). repeat split; try assumption. lia.
+  - cbn [sp_f]. intro X. congruence.
+Qed.
+
+Lemma sp_set_err : forall p e, sp (uset_err p e) = sp p /\ bmb (uset_err p e) = bmb p.
+Proof. intros p e. dp p. split; reflexivity. Qed.
+
+Lemma up_write_space : forall p s b, inv1b p = true -> bmb p = true -> sp_f p b (up_write p s b).
+Proof.
+  intros p s b Hi He. unfold up_write. pose proof (ufeed_space (2 * length b + 2) p s b Hi He) as H.
+  destruct (ufeed (2 * length b + 2) p s b) as [[[p1 s1] err]|e|w|]; cbn [sp_f] in *; try exact I.
+  destruct (unil err) eqn:E; cbn [sp_f].
+  - intros _. destruct (H eq_refl) as (A & B & C). destruct (sp_set_err p1 0) as [S1 S2].
+    rewrite inv1b_set_err, S1, S2. auto.
+  - intro X. congruence.
+Qed.
+
+Definition retained (p : uparser) : Z :=
+  zlen (up_buf p) + zlen (up_stack p) + zlen (up_vstack p) + zlen (up_lstack p).
+
+Lemma retained_sp : forall p, retained p <= sp p.
+Proof. intro p. unfold retained, sp. pose proof (wsp_bounds (up_cur p)). lia. Qed.
+
+Lemma retained_pop : forall p, retained (u_pop (ul_pop p)) <= retained p.
+Proof.
+  intro p. unfold retained. pose proof (ulpop_len p) as H.
+  assert (H1 : up_buf (u_pop (ul_pop p)) = up_buf p /\ up_vstack (u_pop (ul_pop p)) = up_vstack p /\
+          up_lstack (u_pop (ul_pop p)) = up_lstack (ul_pop p) /\ zlen (up_stack (u_pop (ul_pop p))) <= zlen (up_stack p)).
+  { rewrite <- (ulpop_buf p), <- (ulpop_vstack p), <- (ulpop_stack p). generalize (ul_pop p). intro q.
+    unfold u_pop. destruct (up_stack q) as [|c r] eqn:E; dp q; cbn [up_stack up_buf up_vstack up_lstack uset_cur] in *; subst;
+      repeat split; try reflexivity; try lia. rewrite zlen_cons. lia. }
+  destruct H1 as (A & B & C & D). rewrite A, B, C. lia.
+Qed.
+
+Lemma ufinalize_retained : forall fuel p s, retained (fst (fst (ufinalize fuel p s))) <= retained p.
+Proof.
+  induction fuel as [|f IH]; intros p s; cbn [ufinalize]; [cbn; lia|].
+  repeat match goal with
+  | |- context[if ?c then _ else _] => destruct c
+  | |- context[let '(_, _) := ?u in _] => destruct u
+  end; cbn [fst]; try lia.
+  - unfold upop_len_state, upop_state. cbn [fst]. pose proof (IH (u_pop (ul_pop p)) s0). pose proof (retained_pop p). lia.
+  - unfold upop_len_state, upop_state. cbn [fst]. pose proof (IH (u_pop (ul_pop p)) s0). pose proof (retained_pop p). lia.
+Qed.
+
+Lemma up_writes_space : forall chunks p s, inv1b p = true -> bmb p = true ->
+  match up_writes p s chunks with
+  | Ok (p1, _, _) => u_t (up_cur p1) <> tFail -> retained p1 <= sp p + 3 * zlen (concat chunks)
+  | _ => True
+  end.
+Proof.
+  induction chunks as [|c r IH]; intros p s Hi He; cbn [up_writes].
+  - pose proof (ufinalize_retained (S (length (up_stack p))) p s) as H. unfold ufin.
+    destruct (ufinalize (S (length (up_stack p))) p s) as [[p1 s1] e]. cbn [fst] in H. intros _.
+    pose proof (retained_sp p). cbn [concat]. change (zlen (@nil Z)) with 0. lia.
+  - pose proof (up_write_space p s c Hi He) as H.
+    destruct (up_write p s c) as [[[p1 s1] err]|e|w|] eqn:Ew; cbn [sp_f] in H; try exact I.
+    destruct (unil err) eqn:E.
+    + destruct (H eq_refl) as (A & B & C). pose proof (IH p1 s1 A B) as H'.
+      destruct (up_writes p1 s1 r) as [[[p2 s2] err2]|e|w|]; try exact I.
+      intro Hc. specialize (H' Hc). cbn [concat]. rewrite zlen_app. lia.
+    + intro Hc. exfalso. apply Hc. unfold up_write in Ew.
+      destruct (ufeed (2 * length c + 2) p s c) as [[[p0 s0] err0]|e|w|]; try discriminate Ew.
+      destruct (unil err0) eqn:E0; injection Ew as <- <- <-; [congruence|]. dp p0. reflexivity.
+Qed.
+
+Theorem C03_ubj_space : forall vfail chunks p s err, forallb all_bytes chunks = true ->
+  up_writes uparser0 (sink0 vfail) chunks = Ok (p, s, err) -> u_t (up_cur p) <> tFail ->
+  (length (up_buf p) + length (up_stack p) + length (up_vstack p) + length (up_lstack p)
+     <= 3 * length (concat chunks))%nat.
+Proof.
+  intros vfail chunks p s err _ Hw Hc.
+  pose proof (up_writes_space chunks uparser0 (sink0 vfail) inv1b_init eq_refl) as H.
+  rewrite Hw in H. specialize (H Hc). unfold retained in H. change (sp uparser0) with 0 in H.
+  unfold zlen in H. lia.
+Qed.
+
+Corollary C03_ubj_space_run : forall vfail chunks evs e p, forallb all_bytes chunks = true ->
+  urun_chunks vfail chunks = Ok (evs, e, p) -> u_t (up_cur p) <> tFail ->
+  (length (up_buf p) + length (up_stack p) + length (up_vstack p) + length (up_lstack p)
+     <= 3 * length (concat chunks))%nat.
+Proof.
+  intros vfail chunks evs e p Hb Hr Hc. unfold urun_chunks in Hr.
+  destruct (up_writes uparser0 (sink0 vfail) chunks) as [[[p1 s1] err]|?|?|] eqn:Ew; try discriminate Hr.
+  injection Hr as _ _ <-. apply (C03_ubj_space vfail chunks p1 s1 err Hb Ew Hc).
+Qed.
+Print Assumptions C03_ubj_space.
+Print Assumptions C03_ubj_space_run.
+
+(* sanity checks of the guard *)
+Example guard_rejects_witness : no_zero_typed zero_typed_witness = false.
+Proof. reflexivity. Qed.
+Example guard_accepts_typed_ints : no_zero_typed [91; 36; 105; 35; 85; 2; 1; 2] = true.
+Proof. reflexivity. Qed.
